@@ -29,7 +29,7 @@ ASSUMPTIONS = [
 ]
 ANCHORS = ["dagrt.expression:match", "dagrt.expression:_ExtendedUnifier.map_call",
            "dagrt.expression:_ExtendedUnifier.map_modulo_identity"]
-MIN_NONTRIVIAL = {"quick": 1500, "thorough": 40000}
+MIN_NONTRIVIAL = {"quick": 5000, "thorough": 60000}
 REQUIRED_COUNTERS = {"quick": ["matches_returned", "match_points_evaluated", "no_match_valueerror"],
                      "thorough": ["matches_returned", "match_points_evaluated", "no_match_valueerror"]}
 SHARD_TIMEOUT = {"quick": 900, "thorough": 3000}
@@ -40,7 +40,7 @@ KWS = ["k", "m"]
 
 
 def plan(tier, seed):
-    per = 250 if tier == "quick" else 7500
+    per = 700 if tier == "quick" else 9000
     return [{"seed": f"C17:{seed}:{k}", "count": per} for k in range(16)]
 
 
@@ -59,7 +59,7 @@ def gen_term(rng, depth, vars_=VARS, const_p=0.2):
         n = rng.choice([2, 2, 3])
         return ["*"] + [gen_term(rng, depth - 1, vars_, const_p) for _ in range(n)]
     nargs = rng.choice([1, 1, 2, 3])
-    kws = rng.sample(KWS, rng.choice([0, 0, 1, 2]))
+    kws = rng.sample(KWS, rng.choice([0, 0, 1, 2, 2]))
     return ["call", rng.choice(FUNCS), [gen_term(rng, depth - 1, vars_, const_p) for _ in range(nargs)],
             {k: gen_term(rng, depth - 1, vars_, const_p) for k in kws}]
 
@@ -101,8 +101,9 @@ def shuffle_ac(rng, e):
         rng.shuffle(ch)
         return [k] + ch
     if k == "call":
-        return ["call", e[1], [shuffle_ac(rng, x) for x in e[2]],
-                {n: shuffle_ac(rng, v) for n, v in e[3].items()}]
+        items = [(n, shuffle_ac(rng, v)) for n, v in e[3].items()]
+        rng.shuffle(items)          # same keywords, written in another order
+        return ["call", e[1], [shuffle_ac(rng, x) for x in e[2]], dict(items)]
     return [k] + [shuffle_ac(rng, x) for x in e[1:]]
 
 
